@@ -2032,6 +2032,17 @@ func (db *DB) CommitJournal(ctx context.Context, mode JournalMode) (err error) {
 			pgnos = append(pgnos, pgno)
 		}
 	}
+
+	// SQLite can grow the database without writing every new page, e.g. a page
+	// that was allocated and freed again within the transaction. Such a page
+	// reads as zeros. It is part of the new image so it is captured as well.
+	unwritten := make(map[uint32]struct{})
+	for pgno := prevPageN + 1; pgno <= commit; pgno++ {
+		if _, ok := db.dirtyPageSet[pgno]; !ok && pgno != ltx.LockPgno(db.pageSize) {
+			unwritten[pgno] = struct{}{}
+			pgnos = append(pgnos, pgno)
+		}
+	}
 	sort.Slice(pgnos, func(i, j int) bool { return pgnos[i] < pgnos[j] })
 
 	// Open file descriptors for the header & page blocks for new LTX file.
@@ -2087,6 +2098,14 @@ func (db *DB) CommitJournal(ctx context.Context, mode JournalMode) (err error) {
 		// Update the mode if this is the first page and the write/read versions as set to WAL (2).
 		if pgno == 1 && buf[18] == 2 && buf[19] == 2 {
 			dbMode = DBModeWAL
+		}
+
+		// A page that SQLite did not write has no in-memory checksum yet.
+		if _, ok := unwritten[pgno]; ok {
+			db.chksums.mu.Lock()
+			db.setDatabasePageChecksum(pgno, ltx.ChecksumPage(pgno, buf))
+			db.chksums.mu.Unlock()
+			continue
 		}
 
 		// Verify updated page matches in-memory checksum.
